@@ -205,6 +205,10 @@ class SuperSpeedStreamInEndpoint(Elaboratable):
         # to send an ERDY packet to have it resume polling.
         erdy_required = Signal()
 
+        # Stores whether the transaction packet generator has taken our ERDY request. The generator may still be
+        # busy with the NRDY that preceded it; that NRDY's ``done`` is not ours.
+        erdy_accepted = Signal()
+
         # Shortcut for when we need to deal with an in token.
         # Note that, for USB3, an IN token is an ACK that contains a non-zero ``number_of_packets``.
         is_to_us          = (handshakes_in.endpoint_number == self._endpoint_number)
@@ -274,10 +278,17 @@ class SuperSpeedStreamInEndpoint(Elaboratable):
                 # Send our ERDY token...
                 m.d.comb += handshakes_out.send_erdy.eq(1)
 
+                # ... which the generator takes once it's ready for a new request ...
+                with m.If(handshakes_out.ready):
+                    m.d.ss += erdy_accepted.eq(1)
+
                 # ... and once that send is complete, move on to waiting for an IN token.
                 # We're no longer flow-controlled; so we won't need another ERDY until we next send an NRDY.
-                with m.If(handshakes_out.done):
-                    m.d.ss += erdy_required.eq(0)
+                with m.If(handshakes_out.done & erdy_accepted):
+                    m.d.ss += [
+                        erdy_required  .eq(0),
+                        erdy_accepted  .eq(0)
+                    ]
                     m.next = "WAIT_TO_SEND"
 
                 # The host is free to poll us again without waiting for our ERDY [USB3.2r1: 8.10.1]. If it does
@@ -285,6 +296,7 @@ class SuperSpeedStreamInEndpoint(Elaboratable):
                 with m.If(in_token_received):
                     m.d.ss += [
                         erdy_required        .eq(0),
+                        erdy_accepted        .eq(0),
                         last_packet_was_zlp  .eq(0)
                     ]
                     m.next = "SEND_PACKET"
